@@ -20,15 +20,17 @@ theorem hasDerivAt_dot_line (a d b : Vec ℝ) (t : ℝ) :
   have lin : ∀ (p q : ℝ), HasDerivAt (fun t : ℝ => p + t * q) q t := by
     intro p q; simpa using ((hasDerivAt_id t).mul_const q).const_add p
   have := (((lin a.x d.x).mul_const b.x).add ((lin a.y d.y).mul_const b.y)).add ((lin a.z d.z).mul_const b.z)
-  simpa [line, Vec.dot] using this
+  exact this
 
 theorem hasDerivAt_normSq_line (a d : Vec ℝ) :
     HasDerivAt (fun t => (line a d t).dot (line a d t)) (2 * a.dot d) 0 := by
   have lin : ∀ (p q : ℝ), HasDerivAt (fun t : ℝ => p + t * q) q 0 := by
     intro p q; simpa using ((hasDerivAt_id (0 : ℝ)).mul_const q).const_add p
   have := (((lin a.x d.x).mul (lin a.x d.x)).add ((lin a.y d.y).mul (lin a.y d.y))).add ((lin a.z d.z).mul (lin a.z d.z))
-  have h2 := this.congr_deriv (f' := 2 * a.dot d) (by simp [Vec.dot]; ring)
-  simpa [line, Vec.dot] using h2
+  have h2 : HasDerivAt (fun t => (line a d t).dot (line a d t))
+      (d.x * (a.x + 0 * d.x) + (a.x + 0 * d.x) * d.x + (d.y * (a.y + 0 * d.y) + (a.y + 0 * d.y) * d.y) +
+        (d.z * (a.z + 0 * d.z) + (a.z + 0 * d.z) * d.z)) 0 := this
+  exact h2.congr_deriv (by simp [Vec.dot]; ring)
 
 /-- the norm along a line: `d/dt |a + t d| = a·d / |a|` -/
 theorem hasDerivAt_norm_line (a d : Vec ℝ) (ha : 0 < a.dot a) :
@@ -56,8 +58,6 @@ theorem hasDerivAt_cos_line (a d b : Vec ℝ) (ha : 0 < a.dot a) (hb : 0 < b.dot
   rw [line_zero]
   have hsq : sqrt (a.dot a) * sqrt (a.dot a) = a.dot a := mul_self_sqrt ha.le
   field_simp
-  rw [show sqrt (a.dot a) ^ 2 = a.dot a by rw [pow_two, hsq]]
-  ring
 
 /-- chain rule for `sign · arccos (g t)` with the code's factor `sign · (-1/s)`, `s = √(1 - g²)` -/
 theorem hasDerivAt_sign_arccos (g : ℝ → ℝ) (g' t sign : ℝ) (hg : HasDerivAt g g' t) (h1 : g t ≠ -1) (h2 : g t ≠ 1) :
